@@ -123,7 +123,7 @@ def rule_restart_sequence(P, R, r7):
     sa_ = [c for c in own_nodes(u.node) if isinstance(c, ast.Call) and call_text(c) == 'self.supvisors.starter.start_applications']
     # the distribution is only reached with both Supvisors-wide sets empty; each refusal is caused by one of them
     busy = {'self.supvisors.state_modes.starting_identifiers', 'self.supvisors.state_modes.stopping_identifiers'}
-    ok = bool(rs) and len(sa_) == 1 and all(c.lineno < sa_[0].lineno for c in rs) and \
+    ok = bool(rs) and len(sa_) == 1 and all((c.lineno, c.col_offset) < (sa_[0].lineno, sa_[0].col_offset) for c in rs) and \
         {(b, False) for b in busy} <= {tuple(f) for f in fm.at(sa_[0])} and \
         all(any(f[1] and f[0] in busy for f in fm.at(c)) for c in rs) and \
         {f[0] for c in rs for f in fm.at(c) if f[1]} >= busy
